@@ -169,7 +169,7 @@ var goKeyword = map[string]bool{"break": true, "case": true, "chan": true, "cons
 
 // GenSchemaCfg: the schema generator's rates for generated code (no `any` members; the bindnode-specific
 // constructions stay at their defaults, they are ordinary schemas).
-var GenSchemaCfg = SchemaCfg{MaxDepth: 3, NullableDispatchUnion: 30, KindedIntEnum: 0, TupleLooseOptional: 25, UnionAnyMember: 0, EnumEmptyRename: 0}
+var GenSchemaCfg = SchemaCfg{MaxDepth: 3, NullableDispatchUnion: 30, KindedIntEnum: 0, TupleLooseOptional: 25, UnionAnyMember: 0, EnumEmptyRename: 0, PrefixDiscHoldsDelim: 30}
 
 // GenSchemaFor draws a random type tree (the C08/C09 generator) and moves it into the code generator's feature
 // set by replacing, in place, exactly the constructions GenSupported names: `any` by a random scalar type, an enum
@@ -271,6 +271,16 @@ type GenTS struct {
 	Layout string // gengo's union memory layout option, applied to every union: embedAll | interface
 	TS     *schema.TypeSystem
 	Types  []*SType // preorder, Types[0] == Root
+}
+
+// Ambiguous: some type of the system is a string strategy whose own output it cannot read back (SType.Ambig).
+func (g *GenTS) Ambiguous() bool {
+	for _, t := range g.Types {
+		if t.Ambig {
+			return true
+		}
+	}
+	return false
 }
 
 var GenLayouts = []string{"embedAll", "interface"}
